@@ -47,12 +47,35 @@ fn addrs() -> Vec<Multiaddr> {
     ]
 }
 
+/// deterministic peer ids `0..1024` (ed25519 keys from the index), built once per process
+fn peer_of(i: u16) -> libp2p_core::PeerId {
+    static PEERS: std::sync::OnceLock<Vec<libp2p_core::PeerId>> = std::sync::OnceLock::new();
+    PEERS.get_or_init(|| {
+        (0..1024u16)
+            .map(|i| {
+                let mut sk = [0u8; 32];
+                sk[0] = i as u8;
+                sk[1] = (i >> 8) as u8;
+                sk[31] = 0x42;
+                libp2p_identity::Keypair::ed25519_from_bytes(sk).unwrap().public().to_peer_id()
+            })
+            .collect()
+    })[i as usize % 1024]
+}
+
+/// the `k`-th address of a large crowd: distinct IPv4 hosts 10.1.x.y
+fn crowd_addr(k: u16) -> Multiaddr {
+    let mut a = Multiaddr::empty();
+    a.push(Protocol::Ip4([10, 1, (k >> 8) as u8, k as u8].into()));
+    a.push(Protocol::Tcp(4001));
+    a
+}
+
 struct Run {
     kind: String,
     a: Box<dyn RateLimiter>,
     b: Option<Box<dyn RateLimiter>>,
     base: Instant,
-    peers: Vec<libp2p_core::PeerId>,
 }
 
 impl Run {
@@ -63,16 +86,15 @@ impl Run {
             // per-IP: a second instance is fed the same (addr, time) history under other peer ids
             b: if kind == "ip" { Some(limiter(kind, limit, interval)) } else { None },
             base: Instant::now(),
-            peers: (0..8).map(hcore::peer).collect(),
         }
     }
     /// returns false after a panic (the limiter's state is then undefined: the case ends)
-    fn req(&mut self, out: &mut Out, peer: u8, peer2: u8, addr: &Multiaddr, now: u64) -> bool {
+    fn req(&mut self, out: &mut Out, peer: u16, peer2: u16, addr: &Multiaddr, now: u64) -> bool {
         out.op(&format!("req {} {} {} {}", peer, peer2, maddr_tok(addr), now));
         let t = self.base + Duration::from_nanos(now);
         let a = &mut self.a;
         let b = &mut self.b;
-        let (pa, pb) = (self.peers[peer as usize % 8], self.peers[peer2 as usize % 8]);
+        let (pa, pb) = (peer_of(peer), peer_of(peer2));
         let r = hcore::guarded(|| {
             let ra = a.try_next(pa, addr, t);
             let rb = b.as_mut().map(|b| b.try_next(pb, addr, t));
@@ -142,8 +164,8 @@ fn gen_case(rng: &mut Rng, out: &mut Out, idx: u64, len: usize, mono: bool) {
         } else {
             now = (now + gap).min(1 << 60);
         }
-        let peer = 1 + rng.usize(nkeys) as u8;
-        let peer2 = 1 + rng.usize(3) as u8;
+        let peer = 1 + rng.usize(nkeys) as u16;
+        let peer2 = 1 + rng.usize(3) as u16;
         let addr = if kind == "ip" {
             if rng.chance(1, 6) {
                 rng.pick(&addrs).clone()
@@ -154,6 +176,93 @@ fn gen_case(rng: &mut Rng, out: &mut Out, idx: u64, len: usize, mono: bool) {
             rng.pick(&addrs).clone()
         };
         if !run.req(out, peer, peer2, &addr, now) {
+            break;
+        }
+    }
+    out.end();
+}
+
+/// A long refill queue: a crowd of 150-600 distinct identities (peers, or IPs under the per-IP
+/// limiter) asks in bursts at the same or nearby instants, then a target identity exhausts its
+/// bucket (its schedule entry is queued behind the whole crowd) and asks again after exactly
+/// `limit * interval` (and one tick less / more), with some ordinary traffic in between.
+fn crowd_case(rng: &mut Rng, out: &mut Out, idx: u64) {
+    let kind = if rng.bool() { "peer" } else { "ip" };
+    let limit: u32 = *rng.pick(&[1, 1, 2, 3]);
+    let interval: u64 = *rng.pick(&[1000, 1500, 1_000_000, 30_000_000_000]);
+    out.case(idx, &format!("crowd nt=1 {kind} {limit} {interval}"));
+    let mut run = Run::new(kind, limit, interval);
+    let n = 150 + rng.usize(451) as u16;
+    // identity k: peer 10+k (per-peer) / address 10.1.x.y (per-IP, asked by arbitrary peers)
+    let ask = |run: &mut Run, out: &mut Out, rng: &mut Rng, k: u16, now: u64| -> bool {
+        if kind == "peer" {
+            run.req(out, 10 + k, 1, &crowd_addr(rng.below(4) as u16), now)
+        } else {
+            run.req(out, 1 + rng.below(600) as u16, 1 + rng.below(600) as u16, &crowd_addr(k), now)
+        }
+    };
+    let spread = *rng.pick(&[0u64, 0, 1, interval / 4]);
+    let mut now = rng.below(3) * interval;
+    let t0 = now;
+    // the crowd, in bursts; some members ask twice
+    let mut k = 0u16;
+    while k < n {
+        let burst = 1 + rng.usize(64) as u16;
+        for _ in 0..burst.min(n - k) {
+            if !ask(&mut run, out, rng, k, now) {
+                out.end();
+                return;
+            }
+            if rng.chance(1, 10) && !ask(&mut run, out, rng, k, now) {
+                out.end();
+                return;
+            }
+            k += 1;
+        }
+        if spread > 0 {
+            now += rng.below(spread / 16 + 2);
+        }
+    }
+    // the target (identity n) exhausts its bucket: `limit` accepted, one refused
+    let target = n;
+    for _ in 0..=limit {
+        if !ask(&mut run, out, rng, target, now) {
+            out.end();
+            return;
+        }
+    }
+    let t_target = now;
+    // ordinary traffic while nothing is due yet (before t0 + interval)
+    let quiet_until = t0 + interval - 1;
+    for _ in 0..rng.usize(4) {
+        if now < quiet_until {
+            now += rng.below(quiet_until - now + 1);
+        }
+        let k = rng.below(n as u64) as u16;
+        if !ask(&mut run, out, rng, k, now) {
+            out.end();
+            return;
+        }
+    }
+    // the target comes back after limit * interval (-1, exact, +1, or later)
+    let idle = limit as u64 * interval;
+    let back = t_target
+        + match rng.below(6) {
+            0 => idle - 1,
+            1 | 2 | 3 => idle,
+            4 => idle + 1,
+            _ => idle + rng.below(2 * interval),
+        };
+    now = now.max(back);
+    if !ask(&mut run, out, rng, target, now) {
+        out.end();
+        return;
+    }
+    // and some more traffic, the target included
+    for _ in 0..rng.usize(6) {
+        now += *rng.pick(&[0, 1, interval / 2, interval]);
+        let k = if rng.chance(1, 3) { target } else { rng.below(n as u64 + 1) as u16 };
+        if !ask(&mut run, out, rng, k, now) {
             break;
         }
     }
@@ -196,8 +305,8 @@ pub fn run(args: &Args, out: &mut Out) {
             out.case(i as u64, &format!("replay nt=1 {kind} {limit} {interval}"));
             let mut run = Run::new(&kind, limit, interval);
             for op in ops {
-                let peer: u8 = op[1].parse().unwrap();
-                let peer2: u8 = op[2].parse().unwrap();
+                let peer: u16 = op[1].parse().unwrap();
+                let peer2: u16 = op[2].parse().unwrap();
                 let addr = parse_tok(&op[3]);
                 let now: u64 = op[4].parse().unwrap();
                 if !run.req(out, peer, peer2, &addr, now) {
@@ -210,6 +319,12 @@ pub fn run(args: &Args, out: &mut Out) {
     }
     let mut idx = 0u64;
     exhaustive(out, &mut idx, if args.thorough { 4 } else { 3 });
+    let crowds = if args.count > 0 { (args.count / 5).max(1) } else if args.thorough { 1500 } else { 200 };
+    for i in 0..crowds {
+        let mut rng = Rng::for_case(args.seed ^ 0xC0FFEE, i);
+        crowd_case(&mut rng, out, idx);
+        idx += 1;
+    }
     let n = args.n(1000, 20_000);
     for i in 0..n {
         let mut rng = Rng::for_case(args.seed, i);
